@@ -17,7 +17,7 @@ PROPS["C07"] = dict(
     thorough=[("asan", 16, 6000), ("plain0", 16, 6000), ("plain", 16, 6000), ("memcheck", 8, 20, {"budget": 900})],
     stack_mb=256,
     floors={"quick": {"kind_pairs": 400, "thrown_object_identity_checks": 48, "inner_handled_outer_normal": 1, "propagated_2_levels": 1, "throw_from_handler": 1,
-                      "uncaught_child_runs": 20, "lexical_programs": 100, "deep_nests": 4, "programs_run_in_a_second_thread": 300}},
+                      "uncaught_child_runs": 20, "lexical_programs": 100, "deep_nests": 4, "programs_run_in_a_second_thread": 300, "throws_of_an_expression_with_an_effect": 12}},
     rule="case = 1-4 generated try/throw/catch program trees (<=60 nodes, depth<=12, 8 filter sets over 4 exception "
          "kinds, throws from bodies, called functions and handlers) executed with the real macros, or one of 5 "
          "three-level lexical templates with random throw points; distinct = hash of the program text; non-trivial = "
@@ -64,7 +64,7 @@ PROPS["C02"] = dict(
                "tree's own Table.c by unity inclusion; derived quantities recomputed). Sequences are sampled.",
     quick=[("asan", 16, 40), ("plain", 8, 40)],
     thorough=[("asan", 16, 150), ("plain", 16, 400, {"env": {"VH_BIG": "1"}}), ("memcheck", 8, 3, {"budget": 900})],
-    floors={"quick": {"single_entry_tables_with_the_entry_in_slot_0": 20, "tables_with_values_wider_than_keys": 50, "updates_of_displaced_key": 1, "wrapped_entries_observed": 1,
+    floors={"quick": {"float_tables_with_both_zeros_as_keys": 300, "tables_queried_with_their_own_stored_values": 300, "single_entry_tables_with_the_entry_in_slot_0": 20, "tables_with_values_wider_than_keys": 50, "updates_of_displaced_key": 1, "wrapped_entries_observed": 1,
                       "removals_shifting_back_2_or_more": 1, "rehash_grow": 5, "rehash_shrink": 5,
                       "set_after_resize0": 1, "distinct_slot_counts_seen": 5, "assign_from_tree": 1,
                       "copies": 1}},
